@@ -1,9 +1,10 @@
 package rules
 
 import (
-	"go/token"
 	"fmt"
+	"go/token"
 	"go/types"
+	"sort"
 	"strings"
 
 	"dirkcheck/internal/an"
@@ -725,4 +726,75 @@ func (c *Ctx) NoNestedAcquisition(prop string) {
 		c.R.OK(rule, Fn(r.RunRules), c.P.FuncPos(r.RunRules), fmt.Sprintf("%d module functions are reachable from the dispatch; none is RunRules or a locker method", len(pred)))
 	}
 	var _ = types.Identical
+}
+
+// RequestPathWaits (C04.O7 request-path.no-foreign-waits): the per-key locks make requests on one key serial, and what each
+// request answers then depends only on the requests before it. That argument needs every step of a signing request outside
+// the rules (lookup, permission check, unlock, hashing, signing) to depend on no other request in flight: nothing reachable
+// from the signer's endpoints - other than through RunRules, whose subtree is the subject of C15.O3 - starts a goroutine,
+// sends or waits on a channel outside the validated fork/join helper. A request that waits for another request's result
+// (coalesced unlocks, shared futures, single-flight) can be refused - or time out - in one interleaving although it is
+// signed in every serial order.
+func (c *Ctx) RequestPathWaits(prop string) {
+	rule := "C04.O7 request-path.no-foreign-waits"
+	sg := c.Signer(prop + ".anchors")
+	r := c.Ruler(prop + ".anchors")
+	if !sg.OK() || !r.OK() {
+		return
+	}
+	g := c.ModGraph()
+	var roots []*ssa.Function
+	for _, n := range signerEndpoints {
+		roots = append(roots, sg.Endpoints[n])
+		if w := sg.Wrapper[sg.Endpoints[n]]; w != nil {
+			roots = append(roots, w)
+		}
+	}
+	pred := g.Reach(roots, map[*ssa.Function]bool{r.RunRules: true})
+	sc := c.ScatterHelper(rule)
+	inScatter := func(f *ssa.Function) bool {
+		for h := f; h != nil; h = h.Parent() {
+			if h == sc {
+				return true
+			}
+		}
+		return sc != nil && c.onlyCalledFrom(f, map[*ssa.Function]bool{sc: true}, 1)
+	}
+	n, bad := 0, 0
+	var fns []*ssa.Function
+	for f := range pred {
+		fns = append(fns, f)
+	}
+	sort.Slice(fns, func(i, j int) bool { return fns[i].String() < fns[j].String() })
+	for _, f := range fns {
+		if f.Blocks == nil || !prog.InModule(f) || prog.IsTestish(prog.PkgPathOf(f)) || inScatter(f) {
+			continue
+		}
+		n++
+		for _, fb := range f.Blocks {
+			for _, ins := range fb.Instrs {
+				what := ""
+				switch x := ins.(type) {
+				case *ssa.Go:
+					what = "starts a goroutine"
+				case *ssa.Send:
+					what = "sends on a channel"
+				case *ssa.Select:
+					what = "waits in a select"
+				case *ssa.UnOp:
+					if x.Op == token.ARROW {
+						what = "waits for a channel"
+					}
+				}
+				if what != "" {
+					bad++
+					c.R.Fail(rule, Fn(f), c.Pos(ins), "a step of a signing request outside the rules "+what+" outside the validated fork/join helper: the request's outcome can depend on another request in flight (a refusal or time-out that no serial order produces)", "on the signing path, goroutines and channel operations only inside the fork/join helper", PathTo(pred, f))
+				}
+			}
+		}
+	}
+	c.R.Floor(rule, "functions on the signing path outside the rules", n, 15)
+	if bad == 0 {
+		c.R.OK(rule, "signing path", "-", fmt.Sprintf("%d functions reachable from the signer endpoints (not through RunRules): no goroutine, send, receive or select outside the fork/join helper", n))
+	}
 }
